@@ -4,6 +4,7 @@ import (
 	"verif/mc/report"
 	"verif/mc/rt"
 	"verif/mc/spec"
+	"verif/mc/univ"
 	"verif/mc/ws"
 )
 
@@ -20,6 +21,8 @@ func codecSpecs(c *Ctx) []*spec.Spec {
 			out = append(out, s)
 		}
 	}
+	// F-pair: two codec features in one message (units the Go plugins refuse are listed under blocked_units)
+	out = append(out, univ.PairSpecs(c.Thorough)...)
 	return out
 }
 
